@@ -14,8 +14,12 @@ try:
                 add(f"{modname}.{n}", c)
                 canon = f"{c.__module__}.{c.__qualname__}"
                 add(canon, c)
-    import elasticsearch.helpers
+    import elasticsearch.helpers, elasticsearch.exceptions
     add("elasticsearch.helpers.BulkIndexError", elasticsearch.helpers.BulkIndexError)
+    for n in dir(elasticsearch.exceptions):
+        c = getattr(elasticsearch.exceptions, n)
+        if isinstance(c, type) and issubclass(c, BaseException):
+            add(f"elasticsearch.exceptions.{n}", c)
 except Exception as ex:
     out["_error_es"] = [repr(ex)]
 try:
